@@ -143,7 +143,7 @@ func (e *Explorer) exploreNode(path []string) *NodeResult {
 		p.Add("cut_histories", 1)
 		if !strings.HasPrefix(res.CutWhy, "noop ") {
 			p.Add("aborted_histories", 1)
-			if len(p.Notes) < 5 {
+			if len(p.Notes) < 1 {
 				p.Notes = append(p.Notes, fmt.Sprintf("%s: history %q aborted: %s", s.Name, pathStr(path), res.CutWhy))
 			}
 		}
@@ -179,7 +179,7 @@ func (e *Explorer) exploreNode(path []string) *NodeResult {
 					for _, k := range keep {
 						found = found || k.sig == v.sig
 					}
-					if !found && len(p.Notes) < 4 {
+					if !found && len(p.Notes) < 1 {
 						p.Notes = append(p.Notes, fmt.Sprintf("failure not reproduced identically on re-execution (engine-internal map iteration order decides which record of a batch reaches the file first), dropped: %s [%s]", v.sig, pathStr(path)))
 					}
 				}
